@@ -1421,7 +1421,8 @@ class QvmCpu:
             length = length.value
 
         if length is None:
-            length = len(string) - start + 1
+            # the rest of the string; nothing if start is beyond its end
+            length = max(len(string) - start + 1, 0)
 
         if length < 0:
             self.trap(TrapCode.INVALID_OPERAND_VALUE,
